@@ -73,7 +73,7 @@ def after_count_raise_tabled(cname, ev):
     """Raises that may legitimately follow the count (not input rejections)."""
     # CUSUM: 'standard deviation is 0' once past burn-in (documented error, the
     # sample has been consumed)
-    if cname == "CUSUM" and ev.func.qualname == "CUSUM.update" and any(
+    if cname == "CUSUM" and ev.func.qualname.startswith("CUSUM.") and q.stack_has(ev, "CUSUM.update") and any(
             T.mentions(g, lambda a: a == ("attr", "burn_in")) for g in guards(ev)):
         return True
     # NNDVI: on drift the already validated test batch is passed through
